@@ -491,7 +491,7 @@ ADV_OPTS = (
     ("search_size_locked", (False,)), ("search_mesh_expand", (1, 2)), ("search_mesh_increment", (0, 2)),
     ("gp_mean_fun", ("negquad", "zero")), ("use_slice_sampler", (True,)), ("gp_warnings", (True,)), ("stobads", (True,)),
     ("search_acq_fcn", ({"__callable__": "lcb_const", "v": 1.0}, {"__callable__": "lcb_const", "v": 3.0}, {"__callable__": "lcb_schedule", "k": 0.5})),
-    ("tol_noise", (0.0, 1e-12)),
+    ("tol_noise", (0.0, 1e-12)), ("gp_cov_fun", (2, 3)),
     ("complete_poll", (True,)), ("accelerate_mesh", (False,)), ("cache_size", (1, 7, 50)), ("nonlinear_scaling", (False,)),
 )
 
